@@ -203,6 +203,9 @@ class SymWorld(BaseWorld):
     def num_eq(self, a, b):
         return wrap(to_real(a) == to_real(b))
 
+    def div(self, a, b):
+        return wrap(to_real(a) / to_real(b))
+
     def sum(self, ranges, body):
         """ranges: list of (tag, lo, hi); body(list of index terms) -> number"""
         bvars = []
@@ -279,7 +282,7 @@ class ConcWorld(BaseWorld):
         return dict(self._used_sizes)
 
     def _shims(self):
-        return contextlib.nullcontext()
+        return _np.errstate(all="ignore")
 
     def dim(self, letter, name=None, lo=1, n=None, tag=None):
         from flodym.dimensions import Dimension
@@ -342,6 +345,12 @@ class ConcWorld(BaseWorld):
 
     def cover(self, name, cond=True):
         pass
+
+    def div(self, a, b):
+        a, b = float(a), float(b)
+        if b == 0:
+            return float("nan")
+        return a / b
 
     def num_eq(self, a, b):
         a, b = float(a), float(b)
